@@ -706,6 +706,8 @@ def check_range_outcome(res, allowed, data, what):
     if code == 400:
         if ('400',) not in allowed:
             raise Violation('range_unexpected_400', '%s -> 400 %s; acceptable: %s' % (what, brief(res.body), exp_txt))
+        if size and data in res.body:
+            raise Violation('range_400_body', '%s -> 400 carrying the file' % what)
         return '400'
     raise Violation('unexpected_status', '%s -> %s %s; acceptable: %s' % (what, code, brief(res.body), exp_txt))
 
@@ -792,6 +794,15 @@ class Ranges(Suite):
                                'range': render_range(kind, f, l), 'lenient': False}
                 for value, kind, f, l in EXTRA_RANGES:
                     yield {'stack': stack, 'file': fn, 'kind': kind, 'f': f, 'l': l, 'range': value, 'lenient': False}
+                    if size in (2, 5):
+                        # a client that accepts no error document (no JSON / XML / */*): the 416 / 400 has no rendered body
+                        yield {'stack': stack, 'file': fn, 'kind': kind, 'f': f, 'l': l, 'range': value, 'lenient': False,
+                               'accept': 'image/png'}
+                if size in (2, 5):
+                    for f, l in ((size, -1), (size + 3, size + 4), (0, 0), (1, -1), (-1, 1), (size + 1, 0)):
+                        kind = ('missing' if l < 0 else 'suffix') if f < 0 else ('open' if l < 0 else 'fl')
+                        yield {'stack': stack, 'file': fn, 'kind': kind, 'f': f, 'l': l, 'range': render_range(kind, f, l),
+                               'lenient': False, 'accept': 'application/octet-stream'}
                 for value, kind, f, l in LENIENT_RANGES:
                     yield {'stack': stack, 'file': fn, 'kind': kind, 'f': f, 'l': l, 'range': value, 'lenient': True}
             for kind, f, l in BIG_RANGES:
@@ -810,8 +821,10 @@ class Ranges(Suite):
             allowed |= {('400',), ('200',)}
         app = make_app(sb, stack, None, False)
         raw = PREFIX + '/' + case['file']
-        res, events = request(app, stack, raw, headers=[('Range', case['range'])])
-        what = '%s GET %s (size %d) Range: %r' % (stack, raw, size, case['range'])
+        headers = [('Range', case['range'])] + ([('Accept', case['accept'])] if case.get('accept') else [])
+        res, events = request(app, stack, raw, headers=headers)
+        what = '%s GET %s (size %d) Range: %r%s' % (stack, raw, size, case['range'],
+                                                     ' Accept: %s' % case['accept'] if case.get('accept') else '')
         check_containment(sb, events, None, what)
         no_canary(res, what)
         got = check_range_outcome(res, allowed, data, what)
